@@ -135,7 +135,21 @@ def run_driver(run, tier, focus, drv, replay=None):
         for mode in ("exact", "settle"):
             tr = os.path.join(tmp, "trace_%s.ndjson" % mode)
             args = [cases_path, tr] + (["--settle"] if mode == "settle" else [])
-            rc, out, err = vlib.run_bin("drv_replay", args, timeout=1800)
+            rc, out, err = vlib.run_bin("drv_replay", args, timeout=1800, check=False)
+            crashes = 0
+            allc = [json.loads(l) for l in open(cases_path)]
+            while rc != 0 and crashes < 5:
+                # the code under test killed the process (e.g. SIGSEGV through a dangling pointer): that behaviour
+                # is reported, the rest is replayed from the next one
+                marks = [l for l in err.splitlines() if l.startswith("CASE ")]
+                if not marks:
+                    raise vlib.ToolError("drv_replay failed rc=%s without progress marker: %s" % (rc, err[-2000:]))
+                idx = int(marks[-1].split()[1])
+                crashes += 1
+                run.report({"site": drv, "crash": True, "mode": mode},
+                           "driver=%s %s: the replay process died (rc=%s) while replaying behaviour %d: memory-unsafe access in the code under test" % (drv, mode, rc, idx),
+                           allc[idx] if idx < len(allc) else None)
+                rc, out, err = vlib.run_bin("drv_replay", args + ["--from", str(idx + 1)], timeout=1800, check=False)
             lines = vlib.jsonl(out)
             summ = [l for l in lines if l.get("type") == "summary"]
             if not summ:
